@@ -1,20 +1,28 @@
-(** C08 — Truncated files and failing readers never produce a partial or shifted mapping (partial).
-    Pinned statements only; proofs in Proofs/TruncFacts.v and Proofs/ReaderFacts.v.
-
-    What is proved here is the property at the level of whole lines plus the two reader clauses.  The full
-    statement also covers a cut *inside* a line (C08_trunc_bytes, below, stated but not proved in Coq): that
-    case is decided on every byte offset of every generated file by the correspondence check and the
-    truncation oracle; see DESIGN.md 5 (C08) for the case analysis the missing proof needs. *)
+(** C08 — Truncated files and failing readers never produce a partial or shifted mapping.
+    Pinned statements only; proofs in Proofs/{ChunkFacts,CutFacts,TruncFacts,ReaderFacts}.v. *)
 Require Import CF.Proofs.Tac CF.Model.Omics CF.Model.Pair CF.Model.Records CF.Model.Reader CF.Model.Sections CF.Model.Machine
   CF.Proofs.RecordsFacts CF.Proofs.SectionsFacts CF.Spec.Align CF.Proofs.MachineFacts CF.Proofs.BuildFacts CF.Proofs.ReaderFacts
-  CF.Proofs.TruncFacts.
+  CF.Proofs.TruncFacts CF.Proofs.ChunkFacts CF.Proofs.CutFacts.
 
-(** Cutting an accepted stream after any number of whole lines either fails or builds exactly the machine
-    of some whole-chain prefix of the file; an incomplete chain never contributes mappings. *)
-Theorem C08_trunc_lines_partial : forall rs f k, spec_sections None 0 rs = map Ok f ->
+(** If any byte string from which a machine is built (any accepted file: any spelling, LF or CRLF) is cut
+    at any byte offset k - inside a header field, inside a number, between fields, inside or after a line
+    terminator - building from the cut bytes either fails or yields exactly the machine built from some
+    whole-chain prefix [firstn j f] of the file's sections: an incomplete chain never contributes mappings.
+    (The one way a cut line can still complete a chain - a data line cut down to a terminating record of the
+    same size when every later block of that chain is empty - gives the same machine, because empty blocks are
+    not indexed: finding F7.) *)
+Theorem C08_truncation : forall b m k, build (src_of_bytes b) = Val (Ok m) ->
+  exists f, spec_sections None 0 (raw_reads (src_of_bytes b)) = map Ok f /\ build_secs f = Val (Ok m) /\
+    ((exists j, build (src_of_bytes (firstn k b)) = build_secs (firstn j f)) \/
+     (exists e, build (src_of_bytes (firstn k b)) = Val (Err e))).
+Proof. exact build_truncated. Qed.
+Print Assumptions C08_truncation.
+
+(** The same at the level of whole lines, for any stream of reads. *)
+Theorem C08_trunc_lines : forall rs f k, spec_sections None 0 rs = map Ok f ->
   (exists j, build_reads (firstn k rs) = build_secs (firstn j f)) \/ (exists e, build_reads (firstn k rs) = Val (Err e)).
 Proof. exact build_reads_prefix. Qed.
-Print Assumptions C08_trunc_lines_partial.
+Print Assumptions C08_trunc_lines.
 
 (** If the underlying reader fails hard at any read call (before end of input), the failure surfaces as an
     error of the build - never a machine, never a panic (C06_build). *)
